@@ -21,7 +21,14 @@ def _scope_iter(rec, clause):
             "            print('Scope', s, 'iterates as', got); sys.exit(1)\nsys.exit(0)\n")
 
 
+def _rule(rec, clause):
+    model = clause.get("model") or {}
+    return ("import sys, json\nfrom native.replay_rules import replay_rule\n"
+            f"sys.exit(replay_rule({rec['id']!r}, json.loads({json.dumps(json.dumps(model, default=str))})))\n")
+
+
 GENERATORS = [
+    (re.compile(r"^C(03|04|05|07)\.rule\."), _rule),
     (re.compile(r"^C05\.Scope\.__iter__"), _scope_iter),
     (re.compile(r"^C(14|05)\.(sym|rule|kernel)\.(?!TensorParameter|ReferenceParameter|mixing_weight_factory|TorchMatMul|TorchFlatten)"), _param_node),
 ]
